@@ -406,7 +406,11 @@ EXPECTED_BRANCHES = _expected_branches() + STRATA + [
     'history/shared-grid/single-point-axis', 'history/shared-grid/regular',
     'history/shared-partition', 'history/shared-weighting/tensor',
     'history/shared-weighting/pspace', 'history/requery-after-other-space',
-    'stratum/single-point-axis/U', 'stratum/single-point-axis/G']
+    'stratum/single-point-axis/U', 'stratum/single-point-axis/G'] + [
+    'size/{}/{}/{}/{}'.format(side, dt, wk, fn)
+    for side in ('large', 'threshold')
+    for dt in ('float32', 'float64', 'complex64', 'complex128', 'int64')
+    for wk in ('none', 'const', 'array') for fn in ('inner', 'norm', 'dist')]
 
 def is_exact(d):
     """All weights dyadic with few bits: float arithmetic of inner products is exact."""
@@ -671,6 +675,9 @@ def tensor_zoo(ctx, thr):
             ('T', (thr // 250 + 1, 250), 'float64', 'F', ('c', 2.0), 2),
             ('T', (thr // 250 + 1, 250), 'float64', 'C',
              mk_wt(rng, 'array', (thr // 250 + 1, 250), 'float64'), 2)]
+    # one large COMPLEX case is always compared exactly with the model as well (conjugation in
+    # the large-size regime)
+    keep.append(('T', (thr + 1,), 'complex128', 'C', ('c', 2.0), 2))
     out += (keep[:2] + keep[4:] if quick else keep) + bigs[:(1 if quick else 40)]
     return out
 
@@ -1564,6 +1571,149 @@ def run_history(ctx, lines, recs, hseed=None, collect=True):
             allp += pr
     return allp
 
+
+# ---------------------------------------------------------------------------
+# LARGE stream: every size-dependent branch of npy_tensors.py on both sides of its threshold
+#   _inner_default : real dtype, size > THRESHOLD_MEDIUM -> tensordot, else dot; complex -> vdot
+#   x1 - x2 (dist) : _lincomb_impl regimes  size < SMALL / < MEDIUM or not BLAS / BLAS axpy
+#   _norm_default  : BLAS nrm2 for float/complex contiguous data, np.linalg.norm otherwise (int)
+#   _pnorm_default / _pnorm_diagweight : no size condition (run here on large data as well)
+# for each dtype class x weighting kind x layout.  Cheap: compared with explicit weighted NumPy
+# sums in double precision on copies (tolerance), not with Fractions; no model lines (the
+# exact model comparison of large arrays is done on the few `keep` cases of tensor_zoo).
+
+LARGE_DTYPES = ['float32', 'float64', 'complex64', 'complex128', 'int64']
+LARGE_WK = ['none', 'const', 'array']
+LARGE_STRATA = ['size/{}/{}/{}/{}'.format(side, dt, wk, fn)
+                for side in ('large', 'threshold') for dt in LARGE_DTYPES for wk in LARGE_WK
+                for fn in ('inner', 'norm', 'dist')]
+
+
+def large_cases(ctx):
+    thr = threshold()
+    rng = ctx.rng
+    out = []
+    for dt in LARGE_DTYPES:
+        for wk in LARGE_WK:
+            for side, layout, shape in [('large', 'C', (thr + 1,)),
+                                        ('large', 'F', (thr // 250 + 1, 250)),
+                                        ('threshold', 'C', (thr,)),
+                                        ('threshold', 'F', (thr // 250, 250))]:
+                for p in [2, rng.choice([1, INF, 3, 1.5])]:
+                    out.append((side, dt, wk, layout, shape, p, rng.getrandbits(32)))
+    return out
+
+
+def run_large(ctx, case):
+    import odl
+    side, dt, wk, layout, shape, p, vseed = case
+    shape = tuple(shape)
+    r = np.random.RandomState(vseed)
+    size = int(np.prod(shape))
+    dtype = np.dtype(dt)
+    cplx = np.issubdtype(dtype, np.complexfloating)
+    isint = np.issubdtype(dtype, np.integer)
+    den = 8.0 if dt in ('float64', 'complex128') else 1.0
+
+    def vals():
+        v = r.randint(-3, 4, size=size) / den
+        if cplx:
+            v = v + 1j * (r.randint(-3, 4, size=size) / den)
+        return v.reshape(shape)
+    xv, yv = vals(), vals()
+    if wk == 'none':
+        wv, kw, cw = np.ones(shape), {}, 1.0
+    elif wk == 'const':
+        cw = float(r.choice([0.5, 2.0, 4.0]))
+        wv, kw = np.full(shape, cw), {'weighting': cw}
+    else:
+        wv = r.choice([1.0, 2.0, 3.0] if isint else [0.5, 1.0, 2.0, 4.0], size=size).reshape(shape)
+        wdt = np.empty(0, dtype=dtype).real.dtype
+        kw = {'weighting': wv.astype(wdt)}
+    if p != 2:
+        kw['exponent'] = p
+    d = ('T', shape, dt, layout, None if wk == 'none' else
+         (('c', cw) if wk == 'const' else ('a', None)), p)
+    rep = {'large': [side, dt, wk, layout, list(shape), 'inf' if p == INF else p, vseed]}
+    key = 'size regime {} :: space=T/{}/{}/{}/{}/{}'.format(side, wk, pclass(p), dt, layout, size)
+    tol = 1e-4 if dt in ('float32', 'complex64') else 1e-10
+    problems = []
+
+    def bad(what, detail):
+        problems.append((what, detail))
+        ctx.violation(what + ' :: ' + key, detail[:400], rep)
+
+    o = outcome(lambda: odl.tensor_space(shape, dtype=dt, **kw))
+    if o[0] != 'ok':
+        bad('space construction failed', str(o)[:200])
+        return problems
+    space = o[1]
+    mk = (np.asfortranarray if layout == 'F' else np.ascontiguousarray)
+    try:
+        x, y = space.element(mk(xv.astype(dtype))), space.element(mk(yv.astype(dtype)))
+    except Exception as e:  # noqa
+        bad('element creation failed', '{}: {}'.format(type(e).__name__, e))
+        return problems
+    ctx.case(('large', side, dt, wk, layout, pclass(p)), None)
+    x64 = xv.astype(complex if cplx else float)
+    y64 = yv.astype(complex if cplx else float)
+
+    def rnorm(v):
+        a = np.abs(v)
+        if p == INF:
+            return float(np.max((cw * a) if wk != 'array' else wv * a))
+        if p == 2:
+            return math.sqrt(float(np.sum(wv * a * a)))
+        return float(np.sum(wv * a ** p)) ** (1.0 / p)
+
+    def cl(a, b, sc=0.0):
+        return abs(a - b) <= tol * max(abs(a), abs(b), sc) + 1e-300
+
+    tag = 'size/{}/{}/{}/'.format(side, dt, wk)
+    oxx = None
+    if p == 2:
+        oxy, oyx, oxx = (outcome(lambda: x.inner(y)), outcome(lambda: y.inner(x)),
+                         outcome(lambda: x.inner(x)))
+        if any(q[0] != 'ok' for q in (oxy, oyx, oxx)):
+            bad('inner raised', str([q for q in (oxy, oyx, oxx) if q[0] != 'ok'][0])[:200])
+        else:
+            ixy, iyx, ixx = complex(oxy[1]), complex(oyx[1]), complex(oxx[1])
+            ref = complex(np.sum(wv * x64 * np.conj(y64)))
+            refxx = float(np.sum(wv * np.abs(x64) ** 2))
+            sc = float(np.sum(wv * np.abs(x64) * np.abs(y64)))
+            if not cl(ixy, ref, sc):
+                bad('inner != documented weighted sum', 'inner(x,y)={} expected {}'.format(ixy, ref))
+            if not cl(iyx, ixy.conjugate(), sc):
+                bad('inner not conjugate-symmetric', '{} vs {}'.format(ixy, iyx))
+            if abs(ixx.imag) > tol * abs(ixx) or ixx.real <= 0 or not cl(ixx.real, refxx):
+                bad('inner(x,x) not positive definite',
+                    'inner(x,x)={} expected {!r}'.format(ixx, refxx))
+            if not cplx or ref.imag != 0:
+                ctx.hit(tag + 'inner')
+    onx, odx, ond = (outcome(lambda: x.norm()), outcome(lambda: x.dist(y)),
+                     outcome(lambda: (x - y).norm()))
+    if onx[0] != 'ok':
+        bad('norm raised', str(onx)[:200])
+    else:
+        nx = float(onx[1])
+        if not cl(nx, rnorm(x64)):
+            bad('norm != documented weighted p-norm', 'norm(x)={!r} expected {!r}'.format(
+                nx, rnorm(x64)))
+        if p == 2 and oxx is not None and oxx[0] == 'ok' and not cl(nx * nx, complex(oxx[1]).real):
+            bad('norm^2 != inner(x,x) for exponent 2', '{!r}^2 vs {}'.format(nx, oxx[1]))
+        ctx.hit(tag + 'norm')
+    if odx[0] != 'ok' or ond[0] != 'ok':
+        bad('dist raised', str(odx if odx[0] != 'ok' else ond)[:200])
+    else:
+        dxy = float(odx[1])
+        if not cl(dxy, rnorm(x64 - y64)):
+            bad('dist != documented weighted p-norm of x - y', 'dist(x,y)={!r} expected {!r}'
+                .format(dxy, rnorm(x64 - y64)))
+        if not cl(dxy, float(ond[1])):
+            bad('dist != norm(x-y)', 'dist(x,y)={!r} norm(x-y)={!r}'.format(dxy, float(ond[1])))
+        ctx.hit(tag + 'dist')
+    return problems
+
 # ---------------------------------------------------------------------------
 
 def threshold():
@@ -1584,6 +1734,9 @@ def run(ctx):
         run_case(ctx, d, vseed, lines, recs)
     for rep in range(1 if ctx.quick else 6):
         run_history(ctx, lines, recs)
+    for rep in range(1 if ctx.quick else 3):
+        for case in large_cases(ctx):
+            run_large(ctx, case)
     custom_cases(ctx)
     outs = core.run_driver('C02', lines)
     compare(ctx, recs, outs)
@@ -1595,6 +1748,8 @@ def search(ctx, broken):
     saved = ctx.tier
     ctx.tier = 'thorough'
     try:
+        for case in large_cases(ctx):
+            run_large(ctx, case)
         for rep in range(4):
             run_history(ctx, [], [], collect=False)
         for d, vseed in all_cases(ctx):
@@ -1614,6 +1769,13 @@ def replay(ctx, case):
         del ctx.violations[before:]
         bad = [v for v in new if v['replay'].get('custom') == case['custom']]
         return bad[0]['what'] if bad else None
+    if 'large' in case:
+        c = list(case['large'])
+        c[5] = INF if c[5] == 'inf' else c[5]
+        before = len(ctx.violations)
+        problems = run_large(ctx, tuple(c))
+        del ctx.violations[before:]
+        return '; '.join('{}: {}'.format(*p) for p in problems[:5]) if problems else None
     if 'hist' in case:
         before = len(ctx.violations)
         problems = run_history(ctx, [], [], hseed=case['hist']['seed'], collect=False)
